@@ -16,3 +16,26 @@ func Harness_C11L2_literals() {
 	verifAssert(l_interp_raw(a, s) == "x\""+d+"\"\\n% "+s+"\n世", "$`...` with holes")
 	verifCover("end")
 }
+
+func boolText(b bool) string {
+	if b {
+		return "true"
+	}
+	return "false"
+}
+
+func Harness_C11L2_hole_kinds() {
+	a, n := verifInt("a"), verifInt("n")
+	verifAssume(0 <= a)
+	verifAssume(a < 100)
+	verifAssume(0 <= n)
+	verifAssume(n < 100)
+	b := verifBool("b")
+	s := symBuf("s", 1)
+	da, dn := frt.Sprintf1("%d", a), frt.Sprintf1("%d", n)
+	verifAssert(l_hole_bool(b) == "b="+boolText(b)+"!", "a bool hole renders as true / false")
+	verifAssert(l_hole_rec(n, s, b) == "r={"+dn+" "+s+" "+boolText(b)+"}", "a record hole renders as Go %v")
+	verifAssert(l_hole_tuple(n, s) == "t={"+dn+" "+s+"}", "a tuple hole renders as Go %v")
+	verifAssert(l_hole_slice(a, n) == "xs=["+da+" "+dn+"] "+da, "a slice hole renders as Go %v")
+	verifCover("end")
+}
